@@ -1,7 +1,7 @@
 fn eval_between_int(not: bool, x: i64, a: i64, b: i64) -> bool {
     let (lo, lop, hi) = frag_between(not);
-    let l = frag_cmp_int(&lo, x, a);
-    let r = frag_cmp_int(&hi, x, b);
+    let l = frag_cmp_int(&lo, &FV::int(x), &FV::int(a));
+    let r = frag_cmp_int(&hi, &FV::int(x), &FV::int(b));
     match lop { LogicalOp::And => l && r, LogicalOp::Or => l || r }
 }
 #[kani::proof]
